@@ -7,7 +7,7 @@ import numpy as np
 ID = "C19"
 LEVEL = "exploration"
 RULE = ("One case per named Runge-Kutta method (all rows of b, all 17 rooted trees up to order 5, node/row-sum, "
-        "metadata, constant-coefficient expansion), per Taylor order 0..12, per EvolveConfig(rk_solver=..) "
+        "metadata, constant-coefficient expansion), per Taylor order 0..40, 60, 100, 170, 175, per EvolveConfig(rk_solver=..) "
         "constructor path, plus behavioural cases: each tableau row integrates non-linear non-autonomous ODEs with "
         "the harness's own stepping loop and the measured order must reach the advertised one. A sub-case is "
         "non-trivial when it evaluates at least one order condition of order >= 2 or a measured convergence ratio; "
@@ -83,7 +83,7 @@ def elementary_weights(t, a):
 def plan(tier):
     n = len(METHODS) + 1 + len(METHODS) + len(METHODS)
     return {"ncases": n, "min_nontrivial": 100, "exhaustive": True, "nchunks": 8,
-            "required_counters": {"order_conditions": 150, "measured_orders": 12, "taylor_coeffs": 13}}
+            "required_counters": {"order_conditions": 150, "measured_orders": 12, "taylor_coeffs": 1300}}
 
 
 def _check_tableau(ctx, method, rk, via):
@@ -179,17 +179,23 @@ def run_case(ctx):
         rk = ctx.lib(RungeKutta, method, what="RungeKutta")
         _check_tableau(ctx, method, rk, "RungeKutta")
     elif i == nm:
-        ctx.describe({"kind": "taylor", "orders": "0..12 and EvolveConfig defaults"})
+        ctx.describe({"kind": "taylor", "orders": "0..40, 60, 100, 170, 175 and EvolveConfig defaults"})
         ctx.cls("taylor")
         ctx.check(sorted(method_list) == sorted(METHODS), "method_list-changed", got=list(method_list))
-        for n in range(0, 13):
+        from fractions import Fraction
+        for n in list(range(0, 41)) + [60, 100, 170, 175]:
             te = ctx.lib(TaylorExpansion, n, what="TaylorExpansion")
             ctx.check(len(te.coeff) == n + 1 and te.order == n, "taylor|length", n=n)
             for k, ck in enumerate(te.coeff):
                 ctx.count("taylor_coeffs")
                 ctx.evaluations += 1
                 ctx.nontrivial(("taylor", n, k))
-                ctx.check(abs(ck * math.factorial(k) - 1) <= 1e-14, "taylor|coefficient", n=n, k=k, got=ck)
+                want = float(Fraction(1, math.factorial(k)))        # correctly rounded 1/k! (0.0 once it underflows)
+                # scipy's factorial is one ulp off for a few k: 4e-15 relative; 1e-300 absolute for the denormal tail
+                ctx.check(abs(float(ck) - want) <= 4e-15 * want + 1e-300, "taylor|coefficient", n=n, k=k, got=float(ck), want=want)
+        cfg = EvolveConfig(taylor_order=24)
+        ctx.check(len(cfg.taylor_config.coeff) == 25 and abs(cfg.taylor_config.coeff[24] * math.factorial(24) - 1) <= 1e-14,
+                  "taylor|explicit-order-24")
         for adaptive, want in ((False, 4), (True, 5)):
             cfg = EvolveConfig(adaptive=adaptive)
             ctx.check(cfg.taylor_config.order == want and len(cfg.taylor_config.coeff) == want + 1,
